@@ -178,6 +178,7 @@ int flush_pubsub_msgs(void *data, const char *key, void *value) {
      * Else, just free them.
      */
     const bool tell = !stopping_mod && m_mod_is(mod, M_MOD_RUNNING);
+    bool poisoned = false;
     
     m_queue_t *flushed = m_queue_new(mem_dtor);
     if (!flushed) {
@@ -192,7 +193,12 @@ int flush_pubsub_msgs(void *data, const char *key, void *value) {
     while (mod->pubsub_fd[0] != -1 &&
         read(mod->pubsub_fd[0], &mm, sizeof(ps_priv_t *)) == sizeof(ps_priv_t *)) {
         
-        bool discard = !tell || !flushed;
+        bool discard = !tell || poisoned || !flushed;
+        if (!discard && mm->msg.system && mm->msg.topic && !strcmp(mm->msg.topic, M_PS_MOD_POISONPILL)) {
+            /* Same as in the receive loop: module gets stopped, nothing sent after the pill is delivered */
+            poisoned = true;
+            discard = true;
+        }
         if (!discard && mm->sub && mm->sub->flags & M_SRC_ONESHOT) {
             /* Same as in the receive loop: a oneshot subscription fires only once and is then removed */
             if (mm->sub->flags & M_SRC_ZOMBIE) {
@@ -218,6 +224,10 @@ int flush_pubsub_msgs(void *data, const char *key, void *value) {
         m_mem_unref(mm);
     }
     call_pubsub_cb(mod, flushed);
+    if (poisoned && m_mod_is(mod, M_MOD_RUNNING)) {
+        M_INFO("PoisonPilling '%s'.\n", mod->name);
+        stop(mod, true);
+    }
     
     /* 
      * If we are stopping the ctx loop,
